@@ -1112,9 +1112,66 @@ WRAP_CASES = [
 ]
 
 
+def cancel_probe(rep):
+    """the application gives up on some of its outstanding requests (`d.cancel()`, or a timeout added to the deferred).  That is
+    the application's own act on ITS deferred; every OTHER outstanding request must still fire exactly once, with the reply that
+    answers it (TCP: its transaction id; serial: the device still answers every request, in order), and a connection loss must
+    still fail whatever is left.  Not an operation of the client model: checked on the real protocol objects directly, for
+    every non-empty proper subset of 2..3 outstanding requests, both variants."""
+    import itertools
+    for variant in ('dict', 'fifo'):
+        for n in (2, 3):
+            for r in range(1, n):
+                for cancelled in itertools.combinations(range(n), r):
+                    for lose in (False, True):
+                        real = Real(variant, 1)
+                        real.apply(['made'])
+                        sent = []
+                        for _ in range(n):
+                            ev = real.apply(['exec', None])
+                            sent += [e for e in ev if e[0] == 'sent']
+                        case = {'kind': 'cancel', 'variant': variant, 'outstanding': n, 'cancelled': list(cancelled), 'then_lost': lose}
+                        rep.case(('cancel', variant, n, cancelled, lose), nontrivial=True, tag='%s-cancel' % variant)
+                        if len(sent) != n:
+                            continue
+                        events = []
+                        for k in cancelled:
+                            rid = sent[k][1]
+                            d = next(dd for (rr, dd) in real.by_deferred.values() if rr == rid)
+                            try:
+                                d.cancel()
+                            except Exception as e:  # noqa
+                                events.append(['exc', errkind(e)])
+                            events += real.take()
+                        answered = range(n) if not lose else range(n - 1)      # (the last reply never comes: the connection drops)
+                        for k in answered:
+                            tid = sent[k][2] if variant == 'dict' else real.unit
+                            events += real.apply(['reply', tid, 1000 + k])
+                        if lose:
+                            events += real.apply(['lost'])
+                        bad = None
+                        if any(e[0] == 'exc' for e in events):
+                            bad = 'an exception escaped: %r' % [e for e in events if e[0] == 'exc'][:2]
+                        for k in range(n):
+                            if bad or k in cancelled:
+                                continue
+                            rid = sent[k][1]
+                            mine = [e for e in events if e[0] in ('cb', 'eb') and e[1] == rid]
+                            if k in answered:
+                                want = [['cb', rid, sent[k][2] if variant == 'dict' else mine[0][2] if mine else None, 1000 + k]]
+                            else:
+                                want = [['eb', rid, 'lost']]
+                            if mine != want:
+                                bad = 'request %d (not cancelled) fired %r, expected %r' % (k, mine, want)
+                        if bad:
+                            rep.violation('after the application cancelled some of its outstanding requests, another outstanding request did '
+                                          'not fire exactly once with its own reply', case, observed=bad, events=events[:12])
+
+
 def run(ctx):
     rep = Report(RULE)
     rng = ctx.rng
+    cancel_probe(rep)
     corpus = [c for c in ctx.corpus() if c.get('kind') in ('hist', 'wrap', 'net')]
     small = [c for c in corpus if c.get('kind') == 'hist']
     check_cases(ctx, rep, small)
@@ -1212,6 +1269,9 @@ def run(ctx):
 
 def replay(ctx, payload):
     rep = Report(RULE)
+    if payload.get('case', {}).get('kind') == 'cancel':
+        cancel_probe(rep)
+        return rep.violations[0]['what'] if rep.violations else None
     if payload.get('kind') == 'no-failing-input-found':
         cs = [d['case'] for d in payload.get('first_disagreements', [])]
     else:
